@@ -73,15 +73,15 @@ pub fn unwrap_once(token: &str) -> String {
 
 fn player() -> impl Strategy<Value = QPlayer> {
     (
-        any::<u8>(),
-        prop_oneof![any::<i32>(), -5i32..200],
-        any::<u16>(),
-        prop_oneof![any::<u16>(), 0u16..300],
+        crate::util::num::<u8>(),
+        prop_oneof![crate::util::num::<i32>(), -5i32..200],
+        crate::util::num::<u16>(),
+        prop_oneof![crate::util::num::<u16>(), 0u16..300],
         quoteful(24),
         any::<bool>(),
         quoteful(10),
-        any::<u8>(),
-        any::<u8>(),
+        crate::util::num::<u8>(),
+        crate::util::num::<u8>(),
         prop::option::of("[0-9]{1,3}\\.[0-9]{1,3}\\.[0-9]{1,3}\\.[0-9]{1,3}:[0-9]{1,5}"),
     )
         .prop_map(|(id, frags, time, ping, name, q, skin, c1, c2, address)| {
@@ -108,9 +108,13 @@ pub fn state() -> impl Strategy<Value = QuakeState> {
         // spelling choices: 0 = primary, 1 = alternate, 2 = both
         (0u8 .. 3, 0u8 .. 3, 0u8 .. 3, 0u8 .. 4),
         (text(VAL_EXCL, 60), text(VAL_EXCL, 60), text(VAL_EXCL, 30), text(VAL_EXCL, 30)),
-        (any::<u8>(), any::<u8>()),
+        (crate::util::num::<u8>(), crate::util::num::<u8>()),
         (text(VAL_EXCL, 30), text(VAL_EXCL, 30)),
-        prop::collection::vec((key(), text(VAL_EXCL, 40)), 0 .. 12),
+        // (one state in sixteen carries enough variables to take the reply towards the 16 KiB a status message can have)
+        prop_oneof![
+            15 => prop::collection::vec((key(), text(VAL_EXCL, 40)), 0 .. 12),
+            1 => prop::collection::vec((key(), "[ -\\[\\]-~]{50,90}".prop_map(|s| s)), 60 .. 150),
+        ],
         prop_oneof![3 => prop::collection::vec(player(), 0..4), 2 => prop::collection::vec(player(), 4..20), 1 => prop::collection::vec(player(), 20..65)],
         any::<prop::sample::Index>(),
     )
